@@ -432,7 +432,7 @@ pub fn def_sub(tier: Tier) -> Box<dyn DynSub> {
         filters,
         (prop::bool::weighted(0.3), prop::bool::weighted(0.75), (any::<u16>(), any::<u16>())),
         prop::collection::vec((any::<u16>(), any::<u16>()), 0..3),
-        prop::option::weighted(0.6, (prop::collection::vec(simple.prop_map(|mut f| { f.kind = 0; f.enabled = true; f }), 0..2), any::<u16>(), 1u8..12)),
+        prop::option::weighted(0.6, (prop::collection::vec(simple, 0..3), any::<u16>(), 1u8..12)),
         prop::collection::vec((any::<bool>(), any::<u16>()), 0..3),
         (0u8..4, any::<bool>(), prop::bool::weighted(0.2), prop::bool::weighted(0.2), prop::bool::weighted(0.6)),
     )
